@@ -1466,9 +1466,38 @@ impl<'a, R: FileManager> FrontendCtx<'a, R> {
     fn convert_required(&mut self, obj: &BTreeMap<String, Optionality<Runtype>>) -> Runtype {
         let mut acc = vec![];
         for (k, v) in obj {
-            acc.push((k.clone(), v.clone().to_required()));
+            let v = match v {
+                // `-?` also takes `undefined` (and only `undefined`) out of the type of a property that
+                // was optional: Required<{ a?: string | undefined }> is { a: string }
+                Optionality::Optional(t) => self.without_undefined(t).required(),
+                Optionality::Required(_) => v.clone(),
+            };
+            acc.push((k.clone(), v));
         }
         Runtype::object(acc)
+    }
+    fn without_undefined(&self, t: &Runtype) -> Runtype {
+        if !matches!(
+            t.kind,
+            RuntypeKind::AnyOf(_) | RuntypeKind::Ref(_) | RuntypeKind::Undefined
+        ) {
+            return t.clone();
+        }
+        match self.extract_union(t.clone()) {
+            Ok(members)
+                if members
+                    .iter()
+                    .any(|it| matches!(it.kind, RuntypeKind::Undefined)) =>
+            {
+                Runtype::any_of(
+                    members
+                        .into_iter()
+                        .filter(|it| !matches!(it.kind, RuntypeKind::Undefined))
+                        .collect(),
+                )
+            }
+            _ => t.clone(),
+        }
     }
     fn convert_partial(&mut self, obj: &Runtype, anchor: &Anchor) -> Res<Runtype> {
         match &obj.kind {
